@@ -60,6 +60,17 @@ check("C13", "exploration",
       "Trusted: the selection rule as written in the expand() docstring; the reading that values consumed by an expanded construct are complete expansions (DESIGN.md). expand_invoke is covered by C16.",
       "DESIGN.md §3 C13")
 
+check("C14", "exploration",
+      EXH + "the one-line argument rule, comparing three independent views (parser node, expander hook, Lua frame)",
+      "Every argument list of length <= 3 (thorough 4; <= 7 over a 5-atom sub-alphabet) over 15 atoms mixing positional, named and numeric-named arguments with blanks and newlines, restricted to the property's domain, is parsed, expanded with a capturing template_fn and passed through #invoke to an echo module; all three maps must equal the rule's map (keys with their int/str type, values trimmed or verbatim).",
+      "Trusted: echo module + ustring stand-in; plain-text values only (nested calls are C08).",
+      "DESIGN.md §3 C14")
+check("C08", "exploration",
+      EXH + "reference argument evaluation and a differential oracle (Lua API call vs expand() of the equivalent wikitext)",
+      "Every argument list of length <= 3 (thorough 4) over 13 atoms incl. nested calls at wrapper depth 0,1,2 is checked for frame args, parent title and parent args; every grammar fragment up to size 3 (thorough 4) goes through frame:preprocess, and grids of expandTemplate / callParserFunction specs (both calling conventions) are compared with expanding the equivalent call.",
+      "Trusted: definition of the equivalent call (numbered-named form; values without surrounding blanks for callParserFunction); fixtures as in C14.",
+      "DESIGN.md §3 C08")
+
 NOT_APPLICABLE = {}
 for i in range(1, 21):
     pid = "C%02d" % i
